@@ -10,7 +10,10 @@ Correspondence families (model = Coq definitions evaluated with vm_compute; impl
             vs reorder / oneof_regex / match_first
   ranges    _collapse_string_to_ranges / _escape_regex_range_chars / srange vs collapse_items / collapse_str /
             escape_range_str / read_class / expand_items
-  compre    make_compressed_re output parsed and run through the Coq matcher (fullmatch = membership)
+  compre    make_compressed_re at max_level 0..3 on fixed + generated word lists: real text parsed (sre_parse) vs the
+            Coq model compressed_re (Model/CompRe.v; structurally after sre_norm, else behaviourally), the model AST
+            run by the Coq matcher on all short strings vs CPython re on the real text and vs membership, ValueError
+            <-> None, re.escape vs re_escape / read_lit; real output also parsed and run through the Coq matcher
 Property oracle on the implementation: the two real Word paths agree with each other and with the reading
 (longest run capped at max, failing below min); use_regex on/off agree and return a longest listed symbol;
 Literal = startswith; the generated classes denote exactly the given characters; make_compressed_re fullmatches
@@ -25,6 +28,8 @@ GEN = ["gen_c17"]
 RULE = ("exhaustive small scope: Word args (init/body sets over {a,b,-,],^,\\,space,1}, min/max/exact<=4, exclude_chars, "
         "as_keyword) x all strings len<=3..4 x all loc, each real path forced; one_of symbol lists (<=3..4 symbols of "
         "len<=3 incl. duplicates, prefixes, metacharacters) x caseless x use_regex x as_keyword x all strings x all loc; "
+        "make_compressed_re: all 1..3-subsets of an 11-word pool + hand-picked + seeded random lists (2..8 words, len<=4) x "
+        "max_level 0..3, model AST vs sre_parse of the real text and model/real fullmatch on all strings over 'abc.' len<=3; "
         "generated regex strings parsed by sre_parse and compared structurally with the model AST and run through the Coq "
         "matcher, which is itself compared with CPython re on a pattern zoo; non-trivial = the case exercises a match")
 TRUSTED = [
@@ -654,20 +659,185 @@ def ranges_family(ctx):
 # ------------------------------------------------------------------------------------------------------------
 # 6. make_compressed_re
 # ------------------------------------------------------------------------------------------------------------
-def compre_lists(thorough):
+def compre_lists(thorough, rng=None):
     pool = ["a", "ab", "abc", "b", "ba", "abd", "a.", "-", "ac", "abcd", "b]"]
     out = []
     for n in (1, 2, 3) + ((4,) if thorough else ()):
         for t in itertools.combinations(pool, n):
             out.append(list(t))
     out += [["a", "a"], ["ab", "a", "ab"], ["abc", "abd", "abe", "ab"], ["aa", "ab", "ac", "a"], ["ab", "ac", "abc", "acd", "b"],
-            ["a.", "a-", "a]"], ["abc", "abd", "acd", "ace", "acef"]]
+            ["a.", "a-", "a]"], ["abc", "abd", "acd", "ace", "acef"],
+            ["if", "ifdef", "ifndef", "in", "int", "else"], ["a", "a.", "a.b", "a.c", "a.bc"], ["abcd", "abce", "abcf", "abc", "abdd", "abd"],
+            ["ba", "a", "bab", "baba", "babb", "ab"], ["a-", "a", "a]", "a^", "a\\"], ["aaaa", "aaab", "aaba", "aabb", "abaa", "abab"]]
+    if rng is not None:
+        # generated lists (duplicates, prefixes of one another, metacharacters; the same property holds for every list)
+        for _ in range(400 if thorough else 90):
+            al = rng.choice(["ab", "abc", "ab.", "a.-", "abc]", "ab"])
+            out.append(["".join(rng.choice(al) for _ in range(rng.randint(1, 4))) for _ in range(rng.randint(2, 8))])
     return out
+
+
+def _mkseq(parts):
+    return ("REps",) if not parts else parts[0] if len(parts) == 1 else ("RSeq*", parts)
+
+
+def sre_norm(t):
+    """On canon() trees: what re._parser._parse_sub makes of an alternation (leading items common to all alternatives
+    are moved out; alternatives that are all single literals / positive sets become one set).  Meaning-preserving; the
+    model writes the alternation as the text has it, sre_parse returns the rewritten one."""
+    k = t[0]
+    if k == "RSeq*":
+        parts = []
+        for x in t[1]:
+            y = sre_norm(x)
+            if y[0] == "RSeq*":
+                parts.extend(y[1])
+            elif y != ("REps",):
+                parts.append(y)
+        return _mkseq(parts)
+    if k == "RAlt*":
+        items = []
+        for x in t[1]:
+            y = sre_norm(x)
+            items.append(list(y[1]) if y[0] == "RSeq*" else [] if y == ("REps",) else [y])
+        prefix = []
+        while all(items) and all(it[0] == items[0][0] for it in items):
+            prefix.append(items[0][0])
+            items = [it[1:] for it in items]
+        if all(len(it) == 1 and it[0][0] == "RSet" and not it[0][2] and it[0][1] == items[0][0][1] for it in items):
+            merged = []
+            for it in items:
+                for ci in it[0][3]:
+                    if ci not in merged:
+                        merged.append(ci)
+            rest = ("RSet", items[0][0][1], False, merged)
+        else:
+            rest = ("RAlt*", [_mkseq(it) for it in items])
+        return _mkseq(prefix + ([rest] if rest[0] != "RSeq*" else rest[1]))
+    if k == "RRep":
+        return t[:4] + (sre_norm(t[4]),)
+    if k == "RGroup":
+        return ("RGroup", t[1], sre_norm(t[2]))
+    if k == "RLook":
+        return ("RLook", t[1], sre_norm(t[2]))
+    return t
+
+
+def compre_model(ctx, cases, trees, probe):
+    """Model/CompRe.v compressed_re at every level vs the real make_compressed_re: (a) the model AST against the
+    sre_parse AST of the real text (structurally after sre_norm, else behaviourally on probe strings), (b) the model
+    AST run by the Coq matcher on all short strings against CPython re on the real text and against membership,
+    (c) rep_ok of the model AST (so that rm_correct / the theorem's fullmatch form applies), (d) ValueError <-> None."""
+    from pyparsing.util import make_compressed_re
+    strs = strings("abc.", 3)
+    pre = PRE + ("Definition strs := strings_upto %s 3.\n" % cs("abc.") +
+                 "Definition runc (ws : list str) (ml : nat) := match compressed_re ws ml with "
+                 "Some r => Some (r, rep_ok r, map (re_fullmatch r) strs) | None => None end.\n")
+    raising = [[], [""], ["a", ""], ["", "ab", "ab"]]
+    allc = [(w, ml, p) for (w, ml, p) in cases] + [(w, ml, None) for w in raising for ml in (0, 1, 2)]
+    res = []
+    B = 250
+    for i in range(0, len(allc), B):
+        res.extend(vlib.coq_eval_terms("c17_comprec_%d" % i, pre, ["runc [%s] %d" % ("; ".join(cs(x) for x in w), ml) for w, ml, _ in allc[i:i + B]],
+                                       timeout=900))
+    compiled = {}
+    for (w, ml, p), r in zip(allc, res):
+        r = _atom(r)
+        if p is None:
+            try:
+                make_compressed_re(list(w), max_level=ml)
+                raised = False
+            except ValueError:
+                raised = True
+            agreed = raised == (r == "None")
+            if not agreed:
+                ctx.broken("correspondence:compre-raises words=%r max_level=%d real raises ValueError=%r model=%r" % (w, ml, raised, r))
+            ctx.case(("comprer", tuple(w), ml), True, agreed)
+            continue
+        if r == "None":
+            ctx.broken("correspondence:compre-model words=%r max_level=%d: model None (ValueError), real %r" % (w, ml, p))
+            continue
+        mt, rok, outs = r[1]
+        mt = coq_re_tree(mt)
+        ok = True
+        if not rok:
+            ok = False
+            ctx.broken("correspondence:compre-model-rep_ok words=%r max_level=%d model AST outside the class of rm_correct" % (w, ml))
+        if p in trees:
+            if sre_norm(canon(mt)) == sre_norm(canon(trees[p])):
+                ctx.stat("compressed_re_structural")
+            else:
+                ctx.stat("compressed_re_behavioural")
+                for s in probe:
+                    if RA.py_fullmatch(mt, s) != RA.py_fullmatch(trees[p], s) or RA.py_match(mt, s, 0) != RA.py_match(trees[p], s, 0):
+                        ok = False
+                        ctx.broken("correspondence:compre-model words=%r max_level=%d pattern=%r model=%r differ on %r" % (w, ml, p, mt, s))
+                        break
+        if p not in compiled:
+            try:
+                compiled[p] = re.compile(p)
+            except re.error:
+                compiled[p] = None
+        c = compiled[p]
+        for s, o in zip(strs, outs):
+            real = None if c is None else (c.fullmatch(s) is not None)
+            if c is not None and o != real:
+                ok = False
+                ctx.broken("correspondence:compre-model-fullmatch words=%r max_level=%d pattern=%r s=%r re=%r model=%r" % (w, ml, p, s, real, o))
+                break
+            if o != (s in w):
+                # the theorem C17_compressed_re_partial says this cannot happen for the model
+                ok = False
+                ctx.broken("proof:C17_compressed_re_partial model fullmatch(%r)=%r for words=%r max_level=%d" % (s, o, w, ml))
+                break
+        ctx.case(("comprec", tuple(w), ml), len(w) > 1 and ml > 0, ok)
+    ctx.stat("compressed_re_model_cases", len(allc))
+
+
+def compre_escape(ctx):
+    """re.escape vs Model/CompRe.v re_escape / escaped_len; sre_parse of the escaped text vs read_lit"""
+    chars = [chr(c) for c in range(0, 128)] + ["\xe9", "Ж"]
+    words = chars + ["a.b", "-]", "\\^", "a b", "x{2}", "(a|b)*", "\t\n"]
+    res = vlib.coq_eval_terms("c17_escape", PRE, ["map (fun w => (re_escape w, escaped_len w, read_lit (re_escape w))) [%s]" % "; ".join(cs(w) for w in words)],
+                              timeout=300)[0]
+    for w, (e, n, back) in zip(words, res):
+        real = re.escape(w)
+        agreed = vlib.from_coq_str(e) == real and n == len(real)
+        try:
+            lits = [av for op, av in RA.sre_parse.parse(real)]
+            plain = all(str(op) == "LITERAL" for op, av in RA.sre_parse.parse(real))
+        except Exception:
+            lits, plain = None, False
+        back = _atom(back)
+        agreed = agreed and plain and back != "None" and list(back[1]) == lits == [ord(ch) for ch in w]
+        if not agreed:
+            ctx.broken("correspondence:compre-escape %r: re.escape=%r model=%r len=%r sre_parse=%r read_lit=%r" % (w, real, vlib.from_coq_str(e), n, lits, back))
+        ctx.case(("escape", w), real != w, agreed)
+    ctx.stat("escape_words", len(words))
+
+
+def compre_iterator(ctx):
+    """F-17f: the signature takes Iterable[str]; a one-shot iterator is consumed by the `"" in word_list` test"""
+    from pyparsing.util import make_compressed_re
+    for ml in (0, 2):
+        words = ["ab", "ac"]
+        try:
+            patt = make_compressed_re(iter(words), max_level=ml)
+            c = re.compile(patt)
+            ok = all((c.fullmatch(s) is not None) == (s in words) for s in strings("abc", 3))
+            what = "= %r" % patt
+        except Exception as e:
+            ok = False
+            what = "raises %s" % type(e).__name__
+        if not ok:
+            ctx.violation("compre-iterator:%d" % ml, "make_compressed_re(iter(%r), max_level=%d) %s (the list gives %r)" % (
+                words, ml, what, make_compressed_re(words, max_level=ml)), {"kind": "compre-iter", "words": words, "max_level": ml})
+        ctx.case(("compre-iter", ml), True, ok)
 
 
 def compre_family(ctx):
     from pyparsing.util import make_compressed_re
-    lists = compre_lists(ctx.thorough)
+    lists = compre_lists(ctx.thorough, ctx.rng)
     alpha = "abcd.-]e"
     cases = []
     for words in lists:
@@ -713,6 +883,10 @@ def compre_family(ctx):
                     ctx.broken("correspondence:compre-level0 words=%r pattern=%r model=%r differ on %r" % (w, p, mt, s))
                     break
         ctx.stat("compressed0_compared")
+    # every level: the Coq model compressed_re (Model/CompRe.v, the subject of C17_compressed_re_partial)
+    compre_model(ctx, cases, trees, probe)
+    compre_escape(ctx)
+    compre_iterator(ctx)
     # the same through the Coq matcher (model of re), on a common alphabet
     pats = sorted(trees)
     strs = strings("abc.", 3)
@@ -834,5 +1008,15 @@ def replay(ctx, obj):
         c = re.compile(patt)
         al = "".join(sorted(set("".join(r["words"]) + "a")))[:5]
         return all((c.fullmatch(s) is not None) == (s in r["words"]) for s in strings(al, min(max(len(w) for w in r["words"]) + 1, 4)))
+    if k == "compre-iter":
+        from pyparsing.util import make_compressed_re
+        try:
+            patt = make_compressed_re(iter(r["words"]), max_level=r["max_level"])
+            print("make_compressed_re(iter(%r), max_level=%d) = %r" % (r["words"], r["max_level"], patt))
+            c = re.compile(patt)
+            return all((c.fullmatch(s) is not None) == (s in r["words"]) for s in strings("abc", 3))
+        except Exception as e:
+            print("make_compressed_re(iter(%r), max_level=%d) raises %r" % (r["words"], r["max_level"], e))
+            return False
     print("replay names a broken proof/correspondence obligation: %r" % (r,))
     return False
